@@ -1,11 +1,11 @@
 CONSTANTS
   Variant = "code"
   Alphabet = {1,2}
-  MaxLen = 4
-  BruteLen = 0
-  GapVals <- MCGapNeg
+  MaxLen = 3
+  BruteLen = 3
+  GapVals <- MCGapAny
   FreeGaps = TRUE
 INIT Init
 NEXT Next
-INVARIANTS NeverAbove RowwiseAgrees
+INVARIANTS GotohIsBrute0 ZeroOpenOptimal NeverAbove0
 CHECK_DEADLOCK FALSE
